@@ -15,7 +15,11 @@ package main
 //              subscriber / of a prompt one / Close inserted at EVERY position (quick: every
 //              position of the short bases, a stride over the long ones);
 //   multi      several stalled subscribers cancelled one after the other while a delivery is
-//              blocked (each cancellation is an independent coin of the forwarder's select).
+//              blocked (each cancellation is an independent coin of the forwarder's select);
+//   expiry     Batch(k) issued back to back with the clock step that makes k's pending value due
+//              (op "advbatch": no quiescence in between), i.e. between the expiry of k's timer and
+//              the queue popping the entry: the old value may be delivered or replaced, but the new
+//              one must still wait a full interval.
 
 import (
 	"fmt"
@@ -83,6 +87,26 @@ func c10GenDebounce(r *hx.Rand, long bool) c10Input {
 	if r.Chance(1, 2) {
 		closeAt = r.Range(n/2, n+2)
 	}
+	// clock and per-key due times as the script sees them (no delivery blocks in this family)
+	now, due := 0, map[int]int{}
+	track := func(op c10Op) {
+		switch op.Op {
+		case "adv":
+			now += op.D
+		case "batch":
+			due[op.K] = now + iv
+		case "advbatch":
+			now += op.D
+			due[op.K] = now + iv
+		}
+		for k, d := range due {
+			if d <= now && !(op.Op != "adv" && k == op.K) {
+				delete(due, k)
+			}
+		}
+	}
+	base := add
+	add = func(op c10Op) { base(op); track(op) }
 	for len(in.Ops) < n {
 		if len(in.Ops) == closeAt && !closed {
 			add(c10Op{Op: "close"})
@@ -90,6 +114,24 @@ func c10GenDebounce(r *hx.Rand, long bool) c10Input {
 			continue
 		}
 		switch x := r.Intn(20); {
+		case x < 2 && !closed:
+			// Batch of a pending key exactly at (3 in 4) / just after its expiry, back to back
+			// with the clock step
+			k, d := -1, 0
+			for kk := 0; kk < nkeys; kk++ {
+				if dd, ok := due[kk]; ok && dd > now && (k < 0 || r.Bool()) {
+					k, d = kk, dd
+				}
+			}
+			if k < 0 {
+				add(c10Op{Op: "batch", K: r.Intn(nkeys)})
+				continue
+			}
+			step := d - now
+			if r.Chance(1, 4) {
+				step += r.Range(1, 2)
+			}
+			add(c10Op{Op: "advbatch", K: k, D: step})
 		case x < 8:
 			add(c10Op{Op: "batch", K: r.Intn(nkeys)})
 		case x < 14:
@@ -272,6 +314,40 @@ func c10Gen(ctx *core.Ctx) {
 				c10Must(ctx, in, "sweep")
 			}
 		}
+	}
+
+	// --- expiry: Batch at the very instant its key's pending value comes due ---------------------
+	for i := 0; i < 30*scale; i++ {
+		iv := []int{2, 5, 10}[r.Intn(3)]
+		in := c10Input{Interval: iv, Ops: []c10Op{{Op: "sub", P: true}}}
+		if r.Bool() {
+			in.Ops = append(in.Ops, c10Op{Op: "sub", P: r.Bool()})
+		}
+		for j, m := 0, r.Range(1, 4); j < m; j++ {
+			k := r.Intn(2)
+			in.Ops = append(in.Ops, c10Op{Op: "batch", K: k})
+			rest := iv
+			if r.Bool() && iv > 1 { // part of the interval passes first
+				d := r.Range(1, iv-1)
+				in.Ops = append(in.Ops, c10Op{Op: "adv", D: d})
+				rest -= d
+			}
+			if r.Chance(1, 5) {
+				rest += r.Range(1, iv) // past the expiry
+			}
+			for c, cn := 0, r.Range(1, 3); c < cn; c++ { // chains: re-Batch at each new expiry
+				in.Ops = append(in.Ops, c10Op{Op: "advbatch", K: k, D: rest})
+				rest = iv
+			}
+			in.Ops = append(in.Ops, c10Op{Op: "adv", D: iv})
+			if r.Bool() {
+				in.Ops = append(in.Ops, c10Op{Op: "adv", D: iv})
+			}
+		}
+		if r.Bool() {
+			in.Ops = append(in.Ops, c10Op{Op: "close"})
+		}
+		c10Must(ctx, in, "expiry")
 	}
 
 	// --- multi: several stalled subscribers leave one after the other ---------------------------
